@@ -152,6 +152,42 @@ def is_unreachable_body(body):
     return b["k"] == "Macro" and b["name"].split("::")[-1] in ("unreachable", "unimplemented", "todo", "panic")
 
 
+def helper_closure(repo, fn, accepted):
+    """A helper extracted from a traversal still traverses: any function of the same module that hands one of its own parameters
+    (or an element of it: loop variable / closure parameter over it) to an accepted traversal is accepted too (fixpoint)."""
+    accepted = set(accepted)
+    mods = [f for f in repo.fns_in(fn.module)]
+    changed = True
+    while changed:
+        changed = False
+        for h in mods:
+            if h.name in accepted:
+                continue
+            henvs = None
+            for n in A.walk(h.body):
+                cn = callee_name(n)
+                if cn is None or cn not in accepted:
+                    continue
+                henvs = henvs or A.collect_envs(h)
+                env = henvs.get(id(n))
+                if env is None:
+                    continue
+                args = list(n["args"])
+                if n["k"] == "MethodCall":
+                    args = [n["recv"]] + args
+                for a in args:
+                    if a["k"] == "Closure":
+                        continue
+                    p = A.resolve(a, env)
+                    if any(r[0] == "param" for r in A.roots(p)):
+                        accepted.add(h.name)
+                        changed = True
+                        break
+                if h.name in accepted:
+                    break
+    return accepted
+
+
 def tc_check(repo, res, fn_q, enum, accepted, allow, extra_ok_adaptors=(), rule="TC"):
     """Traversal completeness of one function.  `allow` maps (variant, field) -> reason."""
     fn = repo.fn(fn_q)
@@ -163,7 +199,7 @@ def tc_check(repo, res, fn_q, enum, accepted, allow, extra_ok_adaptors=(), rule=
         res.undecided(rule, f"{rule}:{fn_q}", f"no match over {enum} found in {fn_q}", fn.loc())
         return 0
     envs = A.collect_envs(fn)
-    accepted = set(accepted) | {fn.name}
+    accepted = helper_closure(repo, fn, set(accepted) | {fn.name})
     variants = enum_variants(repo, enum)
     n_inst = 0
     okad = OK_ADAPTORS | set(extra_ok_adaptors)
